@@ -21,7 +21,7 @@ red('hello')
 
 import re
 from cwcwidth import wcswidth, wcwidth
-from itertools import chain
+from itertools import accumulate, chain
 from typing import (
     Any,
     Callable,
@@ -458,11 +458,12 @@ class FmtStr:
         """Return a list of lines, split on newline characters,
         include line boundaries, if keepends is true."""
         lines = self.split("\n")
-        return (
-            [line + "\n" for line in lines]
-            if keepends
-            else (lines if lines[-1] else lines[:-1])
-        )
+        if keepends:
+            # every line but the last was ended by a newline: keep that character
+            ends = list(accumulate(len(line) + 1 for line in lines))
+            ends[-1] -= 1
+            lines = [self[start:end] for start, end in zip([0] + ends, ends)]
+        return lines if lines[-1] else lines[:-1]
 
     # proxying to the string via __getattr__ is insufficient
     # because we shouldn't drop foreground or formatting info
